@@ -10,6 +10,7 @@ import (
 	"os"
 	"sort"
 	"sync"
+	"sync/atomic"
 	"time"
 	"unsafe"
 
@@ -823,7 +824,9 @@ func (as *AbacoSource) distributePackets(allpackets []*packets.Packet, now time.
 		cidx := gIndex(p)
 		grp := as.groups[cidx]
 		grp.enqueuePacket(p, now)
-		grp.updateFrameTiming(p, as.nextFrameNum)
+		// nextFrameNum is advanced by the block-assembly goroutine (distributeData) while this
+		// reader goroutine runs: read it atomically.
+		grp.updateFrameTiming(p, FrameIndex(atomic.LoadInt64((*int64)(&as.nextFrameNum))))
 	}
 }
 
@@ -1209,8 +1212,8 @@ func (as *AbacoSource) distributeData(buffersMsg AbacoBuffersType) *dataBlock {
 		}(channelIndex)
 	}
 	wg.Wait()
-	block.nSamp = framesUsed // set once here: every per-channel goroutine used to write it (a data race)
-	as.nextFrameNum += FrameIndex(framesUsed)
+	block.nSamp = framesUsed                                       // set once here: every per-channel goroutine used to write it (a data race)
+	atomic.AddInt64((*int64)(&as.nextFrameNum), int64(framesUsed)) // read concurrently by distributePackets
 	if as.heartbeats != nil {
 		pmb := float64(buffersMsg.totalBytes) / 1e6
 		hwmb := float64(buffersMsg.totalBytes-buffersMsg.droppedBytes) / 1e6
